@@ -247,7 +247,11 @@ def r_perup(E):
                     fns_nw.append(_hview(h, c))
                 except Exception:
                     fns_nw.append(h)
-    reads, nf = [], nf0
+    # (pairs grouped by pattern — groupby over a generator produced pattern by pattern — read as the loop over the
+    # patterns; a comprehension over a generator of pairs read as one comprehension)
+    from ..astutil import degroup_loops as _dgl, fuse_generators as _fuse_nw
+    fns_nw = [_fuse_nw(_dgl(f_), pm.helper_finder("Network")) for f_ in fns_nw]
+    reads, nf = [], fns_nw[0]
     for f_ in fns_nw:
         rs = [n for n in ast.walk(f_) if isinstance(n, ast.Subscript) and isinstance(n.value, ast.Attribute)
               and n.value.attr == "hourly_data_transferred_per_usage_pattern" and isinstance(n.ctx, ast.Load)]
